@@ -634,7 +634,8 @@ def catalogue(ctx):
 STATIC = ["C04_gate1_pass_iff", "C04_gate1_typeerr_iff", "C04_gate1_unitserr_iff", "C04_gate1_partition",
     "C04_bare_number_refused", "C04_any_value_passes", "C04_magnitude_irrelevant", "C04_prefix_irrelevant",
     "C04_seq_pass_iff", "C04_seq_first_failure", "C04_runs_only_if_all_pass", "C04_output_gate",
-    "C04_bind_style_irrelevant", "C04_qvec_every_component_checked", "C04_qvec_failure_refuses"]
+    "C04_bind_style_irrelevant", "C04_qvec_every_component_checked", "C04_qvec_failure_refuses",
+    "C04_bind_any_style", "C04_call_style_irrelevant"]
 
 
 def decide_disagreements(ctx, cases, bad, stream):
